@@ -5,7 +5,7 @@ import "verifrt"
 
 // Property C12 (Walker): yields every pushed element once (unless revisiting is enabled) in queue order.
 
-//verif:h prop=C12 p.ops=2/3 cover=push,pushfront,next,reset,repeat runs=1000000 timeout=120/1200
+//verif:h prop=C12 p.ops=2/3 cover=push,pushfront,next,reset,repeat runs=1000000 timeout=900/1200
 func H_C12_walker() {
 	revisit := verifrt.Choose("revisit", 2) == 1
 	w := New[uint8](revisit)
